@@ -259,6 +259,31 @@ Definition rgetitem (h : rhandle) (d : rdir) (k : option Z) : res (list Z) :=
     end
   end.
 
+(* Python's range(start, stop, step), step <> 0 *)
+Definition range_len (start stop step : Z) : Z :=
+  if 0 <? step then (if start <? stop then (stop - start + step - 1) / step else 0)
+  else (if stop <? start then (start - stop - step - 1) / (- step) else 0).
+Definition py_range (start stop step : Z) : list Z :=
+  map (fun j => start + Z.of_nat j * step) (seq 0 (Z.to_nat (range_len start stop step))).
+
+(* what a consumer of a generator sees: all items, or the first exception *)
+Fixpoint collect {A} (l : list (res A)) : res (list A) :=
+  match l with
+  | [] => Ok []
+  | Ok x :: t => match collect t with Ok r => Ok (x :: r) | Err e => Err e end
+  | Err e :: _ => Err e
+  end.
+
+(* iter_arrays(startindex, endindex, stepsize): ra[i] for i in range(start, end or narrays, step) *)
+Definition riter_arrays (h : rhandle) (d : rdir) (start : Z) (stop : option Z) (step : Z) : res (list (list Z)) :=
+  if step =? 0 then Err ValueError
+  else match index_rows (r_indices d) with
+       | None => Err ValueError
+       | Some rows =>
+           let n := Z.of_nat (length rows) in
+           collect (map (fun i => rgetitem h d (Some i)) (py_range start (match stop with Some e => e | None => n end) step))
+       end.
+
 (* ---------- operations and histories ---------- *)
 
 Inductive rop :=
